@@ -542,7 +542,10 @@ def rv(cx):
              "C05": ("holder-update-refused-late", "unionarray-update-refused-late"),
              "C10": ("bind-value", "bind-foreign", "union-bind-value", "union-bind-foreign", "item-bind-value", "item-bind-existing", "union-item-bind", "write-through-ref", "write-through-original")}.get(cx.prop)
     if focus and cx.tier != "thorough":
-        hs = [h for h in hs if h[-1] in focus]
+        # C09 also speaks of LATER writes ("a later write to either never shows through the other"): a copy followed
+        # by a rebinding of / a write through a reference of the original, the copies being checked afterwards
+        later = ("bind-foreign", "bind-value", "bind-other-existing", "bind-null", "write-through-ref", "union-bind-foreign", "union-bind-value", "item-bind-value") if cx.prop == "C09" else ()
+        hs = [h for h in hs if h[-1] in focus or (len(h) >= 2 and h[-2] in focus and h[-1] in later)]
         cx.partial = True
     from concurrent.futures import ProcessPoolExecutor
 
